@@ -372,6 +372,28 @@ impl<'a> VisitMut for Rules<'a> {
     }
 
     fn visit_expr_mut(&mut self, e: &mut syn::Expr) {
+        // R28: `E.map_err(|e| BODY)?`  ->  `match E { Ok(v) => v, Err(e) => return Err(BODY) }`
+        // (the function's error type is the closure's result type, so `?` converts with the identity From)
+        if self.ctx.on("R28") {
+            if let syn::Expr::Try(t) = e {
+                if let syn::Expr::MethodCall(mc) = &*t.expr {
+                    if mc.method == "map_err" && mc.args.len() == 1 {
+                        if let syn::Expr::Closure(cl) = &mc.args[0] {
+                            if cl.inputs.len() == 1 {
+                                let recv = &mc.receiver;
+                                let pat = match &cl.inputs[0] { syn::Pat::Type(pt) => (*pt.pat).clone(), p => p.clone() };
+                                let body = &cl.body;
+                                let new: syn::Expr = syn::parse_quote!(match #recv { Ok(vx_ok) => vx_ok, Err(#pat) => return Err(#body) });
+                                *e = new;
+                                self.ctx.used("R28");
+                                syn::visit_mut::visit_expr_mut(self, e);
+                                return;
+                            }
+                        }
+                    }
+                }
+            }
+        }
         // R22: `A.iter()[.zip(B)].map(|pat| BODY).collect()`  ->  index loop pushing BODY into a fresh Vec
         if self.ctx.on("R22") {
             if let Some(new) = self.rewrite_map_collect(e) {
@@ -675,6 +697,12 @@ impl<'a> VisitMut for Rules<'a> {
                         self.ctx.used("R10");
                     }
                 }
+            }
+            syn::Expr::MethodCall(mc) if self.ctx.on("R6") && mc.method == "to_string" && mc.args.is_empty()
+                && self.ctx.opts["opaque_to_string"].as_array().map(|a| a.iter().any(|v| v.as_str().map(norm).as_deref() == Some(&norm(&mc.to_token_stream().to_string())))).unwrap_or(false) => {
+                // R6: rendering a value through Display is abstracted like format!
+                *e = syn::parse_quote!(vx_opaque_string());
+                self.ctx.used("R6");
             }
             syn::Expr::Macro(m) if self.ctx.on("R6") && m.mac.path.is_ident("format") => {
                 // R6: the text of a formatted string is abstracted away (no postcondition)
